@@ -178,7 +178,8 @@ def splitChar (sep : Char) : Str → List Str
       | [] => [[c]]
       | p :: ps => (c :: p) :: ps
 
-/-- `_expect(tokens)`: COORD HYPHEN [COORD]; whatever follows the third token is never looked at -/
+/-- `_expect(tokens)`: COORD HYPHEN [COORD]; whatever follows the third token is never looked at.
+    A `ValueError` raised by `parse_humanized` propagates unchanged (every error here is `.value`). -/
 def expectToks : List Tok → Except Err (Nat × Option Nat)
   | [] => .error .value
   | t1 :: rest =>
